@@ -11,6 +11,7 @@
   squared doubled offsets between the two centres.
 -/
 import EG.Lemmas.RoundedRectEllipse
+import EG.Lemmas.EllipsePoints
 namespace EG.C18
 open EG EG.RoundedRect
 
@@ -148,21 +149,43 @@ example : let r : RoundedRect := ⟨⟨⟨0, 0⟩, ⟨8, 6⟩⟩, CornerRadii.ne
 
 /-! ### even sides, every radius half a side: the ellipse -/
 
-/-- **`half_radii_eq_ellipse`**: with sides `2a x 2b` and every corner radius `(a, b)`, on the
-bounding box `contains` is literally `Ellipse::contains` of the ellipse with the same box
-(`EllipseContains::new(size).contains(point * 2 - center_2x(top_left, size))`, the shared
-`EllipseContains` model), and `points()` is the bounding box filtered by that test. -/
-theorem half_radii_eq_ellipse (tl : Pt) (a b : Nat) (h : (halfRadii tl a b).InRange) :
-    (∀ p, (halfRadii tl a b).boundingBox.contains p = true →
-      (halfRadii tl a b).contains p = ellipseTest tl a b p) ∧
-    (halfRadii tl a b).points = (halfRadii tl a b).boundingBox.points.filter (ellipseTest tl a b) := by
-  refine ⟨fun p hb => half_radii_contains tl a b h p hb, ?_⟩
-  rw [RoundedRect.points_eq_filter _ h]
-  apply List.filter_congr
-  intro p hp
-  exact half_radii_contains tl a b h p ((Rect.mem_points h).mp hp)
-example : (halfRadii ⟨-3, 2⟩ 4 3).InRange := by decide
+/-- `ellipseTest` (the local name used by the lemmas) IS `Ellipse::contains` of the modelled ellipse
+with the same bounding box. -/
+theorem ellipseTest_eq_ellipse_contains (tl : Pt) (a b : Nat) (p : Pt) :
+    ellipseTest tl a b p = (⟨tl, ⟨a * 2, b * 2⟩⟩ : Ellipse).contains p := by
+  unfold ellipseTest Ellipse.contains Ellipse.center2x EllipseQuadrant.ellipseCenter2x
+  rfl
 
--- [V] that `ellipseTest` is false outside the box and that `Ellipse::points()` equals the box filtered by it (the ellipse's own C05 claim, ellipse topic): carried by correspondence + oracle only (the oracle compares `contains` over the box grown by 3 px and `points()` with `Ellipse` of the same box)
+/-- **`half_radii_eq_ellipse`**: with sides `2a x 2b` and every corner radius `(a, b)` the rounded
+rectangle is the modelled `Ellipse` with the same bounding box: `contains` agrees at EVERY point
+(inside the box by the corner-quadrant argument, outside it both are false), and `points()` is the
+same list as `Ellipse::points()` (same points, same order). -/
+theorem half_radii_eq_ellipse (tl : Pt) (a b : Nat) (h : (halfRadii tl a b).InRange) :
+    (∀ p, (halfRadii tl a b).contains p = (⟨tl, ⟨a * 2, b * 2⟩⟩ : Ellipse).contains p) ∧
+    (halfRadii tl a b).points = (⟨tl, ⟨a * 2, b * 2⟩⟩ : Ellipse).points := by
+  have he : (⟨tl, ⟨a * 2, b * 2⟩⟩ : Ellipse).InRange := h
+  have hin : ∀ p, (halfRadii tl a b).boundingBox.contains p = true →
+      (halfRadii tl a b).contains p = (⟨tl, ⟨a * 2, b * 2⟩⟩ : Ellipse).contains p := fun p hb => by
+    rw [← ellipseTest_eq_ellipse_contains]; exact half_radii_contains tl a b h p hb
+  refine ⟨fun p => ?_, ?_⟩
+  · by_cases hb : (halfRadii tl a b).boundingBox.contains p = true
+    · exact hin p hb
+    · have h1 : (halfRadii tl a b).contains p = false := by
+        cases hc : (halfRadii tl a b).contains p with
+        | false => rfl
+        | true => exact absurd (RoundedRect.contains_imp_bbox _ h hc) hb
+      have h2 : (⟨tl, ⟨a * 2, b * 2⟩⟩ : Ellipse).contains p = false := by
+        cases hc : (⟨tl, ⟨a * 2, b * 2⟩⟩ : Ellipse).contains p with
+        | false => rfl
+        | true => exact absurd (Ellipse.contains_imp_bbox hc) hb
+      rw [h1, h2]
+  · rw [RoundedRect.points_eq_filter _ h, Ellipse.points_eq_filter he]
+    apply List.filter_congr
+    intro p hp
+    exact hin p ((Rect.mem_points h).mp hp)
+example : (halfRadii ⟨-3, 2⟩ 4 3).InRange := by decide
+example : (halfRadii ⟨-3, 2⟩ 4 3).points = (⟨⟨-3, 2⟩, ⟨8, 6⟩⟩ : Ellipse).points ∧
+    (halfRadii ⟨-3, 2⟩ 4 3).points.length ≥ 20 := by decide
+
 -- [V] band of half a pixel stated with grown / shrunk semi-axes (implied by the exact ideal-ellipse theorems above for every corner; the oracle also evaluates the +-1/2 band directly): carried by correspondence + oracle only
 end EG.C18
